@@ -8,6 +8,7 @@ from __future__ import annotations
 
 import ast
 import itertools
+import re
 from pathlib import Path
 
 from .. import core, translate as T
@@ -51,6 +52,15 @@ def translate(repo: Path) -> dict:
         raise T.TranslateError("apply_delta: `if cp_size == 0` not found")
     rs = repo / "crates" / "pack" / "src" / "lib.rs"
     rs_max = T.rust_const(rs, "MAX_COPY_LEN")
+    rs_src = rs.read_text()
+    m = re.search(r"\nfn apply_delta\(.*?\n}\n", rs_src, re.S)
+    if not m:
+        raise T.TranslateError("Rust apply_delta not found")
+    rs_ranges = [int(x) for x in re.findall(r"for i in 0\.\.(\d+)", m.group(0))]
+    rs_zero = re.search(r"if cp_size == 0 \{\s*cp_size = (0x[0-9a-fA-F]+|\d+);", m.group(0))
+    if len(rs_ranges) != 2 or not rs_zero:
+        raise T.TranslateError(f"Rust apply_delta: loop bounds {rs_ranges} / zero-size rule not found")
+    import struct
     src = T.lean_header("dulwich/pack.py: _MAX_COPY_LEN, _encode_copy_operation, _create_delta_py, apply_delta; "
                         "crates/pack/src/lib.rs: MAX_COPY_LEN") + f"""
 namespace Dulwich.Gen
@@ -70,6 +80,12 @@ def applyOffsetBytes : Nat := {ab[0]}
 def applySizeBytes : Nat := {ab[1]}
 /-- `if cp_size == 0: cp_size = N` -/
 def copyZeroSize : Nat := {zero}
+/-- Rust `for i in 0..N` over offset bytes / size bytes, and the zero-size rule -/
+def rsApplyOffsetBytes : Nat := {rs_ranges[0]}
+def rsApplySizeBytes : Nat := {rs_ranges[1]}
+def rsCopyZeroSize : Nat := {int(rs_zero.group(1), 0)}
+/-- width of Rust `usize` on this platform -/
+def rsUsizeBits : Nat := {struct.calcsize("P") * 8}
 end Dulwich.Gen
 """
     return {"Delta": src}
@@ -119,6 +135,39 @@ def impl_opcodes(a):
         elif tag in ("replace", "insert"):
             ops.append("i:" + hx(target[j1:j2]))
     return ops
+
+
+_BIG = {}
+
+
+def impl_copyop_big(a):
+    """Op-level round trip on a big base generated in the child (seed, size): for each (off, len) build the delta
+    header + the real encoder's copy ops (split at _MAX_COPY_LEN like _create_delta_py) and apply it with the real
+    decoder; returns the list of (off, len) for which the result is not base[off:off+len]."""
+    import random
+    import dulwich.pack as P
+    from dulwich.errors import ApplyDeltaError
+    key = (a["seed"], a["size"])
+    if key not in _BIG:
+        _BIG.clear()
+        _BIG[key] = random.Random(a["seed"]).randbytes(a["size"])
+    base = _BIG[key]
+    bad = []
+    for off, ln in a["copies"]:
+        d = bytearray(P._delta_encode_size(len(base)) + P._delta_encode_size(ln))
+        o, l = off, ln
+        while l > 0:
+            n = min(l, P._MAX_COPY_LEN)
+            d += P._encode_copy_operation(o, n)
+            o += n
+            l -= n
+        try:
+            out = b"".join(P.apply_delta(base, bytes(d)))
+        except ApplyDeltaError:
+            out = None
+        if out != base[off:off + ln]:
+            bad.append([off, ln])
+    return bad
 
 
 def impl_which(a):
@@ -305,41 +354,29 @@ def declared_sizes(delta: bytes):
     return s, d
 
 
-ALLOC_SLACK = 1 << 20
-
-
-def proportion_bound(base: bytes, delta: bytes) -> int:
-    return 64 * (len(base) + len(delta)) + ALLOC_SLACK
-
-
 def classify_decode(ctx, stream, variant, base: bytes, delta: bytes, rep):
-    """Direct oracle for the decoder half of the statement, on one reply from a worker.
-    rep is the worker reply dict: {"r": "ok <hex>"|"err delta"} | {"exc":..} | {"crash":..}."""
+    """Direct oracle for the decoder half of the statement, on one reply from a worker
+    ({"r": "ok <hex>"|"err delta"} | {"exc":..} | {"crash":..}): a decoder either returns output of the
+    declared length or fails with the delta error; it never kills the process, panics, or exhausts the
+    child's 1 GiB address-space limit (allocation out of proportion to a few-hundred-KiB input)."""
     case = {"variant": variant, "base": hx(base), "delta": hx(delta)}
     if "crash" in rep:
-        ds = declared_sizes(delta)
-        cls = "rs-alloc-declared-size" if (variant == "rs" and ds and ds[1] > proportion_bound(base, delta)) else None
-        ctx.oracle_fail(stream, case, f"decoder killed the process / exceeded its limits: {rep['crash']}", cls)
+        ctx.oracle_fail(stream, case, f"decoder killed the process / exceeded its limits: {rep['crash']}",
+                        f"{variant}-crash")
         return "crash"
     if "exc" in rep:
-        cls = None
-        if variant == "rs" and rep["exc"] == "PanicException":
-            cls = "rs-panic-wide-varint"
-        elif rep["exc"] == "MemoryError":
-            cls = f"{variant}-alloc-declared-size"
-        ctx.oracle_fail(stream, case, f"decoder raised {rep['exc']} instead of the delta error: {rep.get('msg')}", cls)
+        ctx.oracle_fail(stream, case, f"decoder raised {rep['exc']} instead of the delta error: {rep.get('msg')}",
+                        f"{variant}-exc-{rep['exc']}")
         return "exc:" + rep["exc"]
     r = rep["r"]
     if r.startswith("ok "):
         out = unhx(r[3:])
         ds = declared_sizes(delta)
-        if ds is None or (len(out) != ds[1] and variant == "py"):
-            ctx.oracle_fail(stream, case, f"output length {len(out)} != declared {ds}")
-        elif variant == "rs" and len(out) != ds[1] % (1 << 64):
-            ctx.oracle_fail(stream, case, f"output length {len(out)} != declared {ds}")
-        elif variant == "rs" and len(out) != ds[1]:
-            ctx.oracle_fail(stream, case, f"output length {len(out)} != declared {ds[1]} (size wrapped mod 2^64)",
-                            "rs-size-wrap")
+        if ds is None or len(out) != ds[1]:
+            ctx.oracle_fail(stream, case, f"output length {len(out)} != declared {ds}", f"{variant}-wrong-length")
+        elif not _from_base_or_literal(out, base, delta):
+            ctx.oracle_fail(stream, case, "output contains bytes that occur neither in the base nor in the delta",
+                            f"{variant}-foreign-bytes")
     return r
 
 
@@ -358,8 +395,8 @@ def run(ctx: core.Ctx):
         "difflib.SequenceMatcher / Rust `similar` opcode lists are parameters of the theorem; the contract "
         "(blocks tile the target) is checked on every list the real library returned in this run",
         "Rust usize = 64 bit; debug profile (overflow checks on), as the installed artefact",
-        "process-level resource oracle: child with RLIMIT_AS 1 GiB; a decoder asking for more than "
-        "64*(len(base)+len(delta))+1MiB is out of proportion",
+        "process-level resource oracle: decoders run in children with RLIMIT_AS 1 GiB; abort, panic, MemoryError "
+        "or any non-delta exception on inputs of at most a few hundred KiB is a violation",
     ]
     try:
         w = {k: v.ask({"mod": MOD, "op": "which"}) for k, v in workers.items()}
@@ -367,6 +404,7 @@ def run(ctx: core.Ctx):
         if "rs" in w and "_pack" not in str(w["rs"].get("r", {}).get("apply")):
             ctx.notes.append(f"rs worker did not load the Rust apply_delta: {w['rs']}")
         _stream_varint(ctx)
+        _stream_copyop_big(ctx, workers)
         _stream_pairs(ctx, workers)
         _stream_exhaustive(ctx, workers)
         _stream_structured(ctx, workers)
@@ -400,6 +438,37 @@ def _stream_varint(ctx):
         ctx.count("copy.enc", (off, ln), True, f"mask{real[:2]}")
         if o != real:
             ctx.disagree("copy.enc", {"off": off, "len": ln}, o, real)
+
+
+def _copyop_cases(rng, size, n):
+    cases = []
+    edges = [0, 1, 255, 256, 257, 0xFFFF, 0x10000, 0x10001, 0xFFFFFF, 0x1000000, 0x1000001, size - 1]
+    for _ in range(n):
+        off = min(max(rng.choice(edges) + rng.choice([-1, 0, 0, 1, 7]), 0), size - 1)
+        if rng.random() < 0.3:
+            off = rng.randrange(size)
+        ln = rng.choice([1, 2, 255, 256, 257, 0xFF00, 0xFFFF, 0x10000, 0x10001, 0x1FFFE, 0x20000, rng.randint(1, 70000)])
+        ln = max(1, min(ln, size - off))
+        cases.append([off, ln])
+    return cases
+
+
+def _stream_copyop_big(ctx, workers, stream="copyop.big", scale=1):
+    """Direct oracle at opcode level on bases big enough to need 3- and 4-byte offsets (2^16.., 2^24..):
+    apply(header ++ encode_copy*(off, len)) == base[off:off+len] on the real encoder x real decoders."""
+    rng = ctx.rng
+    for size in (0x10000 + 300, 0x1000000 + 70000):
+        cases = _copyop_cases(rng, size, ctx.budget(60) * scale)
+        for v, wk in workers.items():
+            rep = wk.ask({"mod": MOD, "op": "copyop_big", "args": {"seed": 7, "size": size, "copies": cases}}, timeout=600)
+            if "r" not in rep:
+                ctx.oracle_fail(stream, {"variant": v, "size": size}, f"copy-op round trip crashed: {rep}", f"{v}-crash")
+                continue
+            for c in cases:
+                ctx.count(stream, (v, size, tuple(c)), True, f"{v}:off{c[0].bit_length() // 8}B:len{c[1].bit_length() // 8}B")
+            for off, ln in rep["r"][:5]:
+                ctx.oracle_fail(stream, {"variant": v, "base": f"random.Random(7).randbytes({size})", "off": off, "len": ln},
+                                f"apply(encode_copy({off},{ln})) != base[{off}:{off + ln}] with the {v} decoder")
 
 
 def _stream_pairs(ctx, workers):
@@ -463,47 +532,25 @@ def _stream_pairs(ctx, workers):
 
 
 def _compare_decoders(ctx, stream, workers, base: bytes, deltas: list[bytes], tags=None):
-    """model(py) vs real py; model(rs) vs real rs; oracle on every reply."""
-    lines = [f"c03.apply {hx(base)} {hx(d)}" for d in deltas] + [f"c03.applyrs 1 {hx(base)} {hx(d)}" for d in deltas]
+    """model(py) vs real py; model(rs) vs real rs; oracle on every reply; py-vs-rs agreement (C15)."""
+    lines = [f"c03.apply {hx(base)} {hx(d)}" for d in deltas] + [f"c03.applyrs {hx(base)} {hx(d)}" for d in deltas]
     outs = ctx.driver.batch(lines)
     mpy, mrs = outs[: len(deltas)], outs[len(deltas):]
     for i, d in enumerate(deltas):
         tag = tags[i] if tags else None
-        rep = workers["py"].ask({"mod": MOD, "op": "apply", "args": {"base": hx(base), "delta": hx(d)}})
-        r = classify_decode(ctx, stream, "py", base, d, rep)
-        nontriv = r.startswith("ok") or True
-        ctx.count(stream, ("py", base, d), nontriv, (tag + ":" if tag else "") + ("ok" if r.startswith("ok") else r[:12]))
-        if r != mpy[i]:
-            ctx.disagree(stream, {"base": hx(base), "delta": hx(d)}, mpy[i], r, "py")
-        if "rs" in workers:
-            ds = declared_sizes(d)
-            rep = workers["rs"].ask({"mod": MOD, "op": "apply", "args": {"base": hx(base), "delta": hx(d)}})
-            r = classify_decode(ctx, stream, "rs", base, d, rep)
-            # model outcome -> expected observable
-            m = mrs[i].split(" ")
-            if m[0] == "panic":
-                exp = "exc:PanicException"
-            elif m[0] == "ok":
-                exp = "ok " + m[2]
-            else:
-                exp = "err delta"
-            alloc = int(m[1]) if m[0] in ("ok", "err") else 0
-            ctx.count(stream, ("rs", base, d), True, (tag + ":" if tag else "") + m[0])
-            if alloc > proportion_bound(base, d):
-                # the model says the Rust decoder asks for `alloc` bytes up front: whatever the OS did, that is
-                # out of proportion to the data supplied
-                ctx.oracle_fail(stream, {"variant": "rs", "base": hx(base), "delta": hx(d)},
-                                f"Rust decoder allocates declared dest_size={alloc} before reading any opcode",
-                                "rs-alloc-declared-size")
-                if r in ("crash", "exc:MemoryError", "err delta") or r.startswith("exc:"):
-                    continue  # outcome of a huge allocation is OS-dependent; not compared
-            if r != exp:
-                ctx.disagree(stream, {"base": hx(base), "delta": hx(d)}, mrs[i][:200], r[:200], "rs")
-            # cross-implementation (C15 reads this stream too)
-            if mpy[i].startswith("ok") != (m[0] == "ok") or (m[0] == "ok" and mpy[i] != exp):
-                ctx.hist.setdefault(stream + ".py-vs-rs-model-divergence", {})
-                h = ctx.hist[stream + ".py-vs-rs-model-divergence"]
-                h[m[0]] = h.get(m[0], 0) + 1
+        res = {}
+        for v, model in (("py", mpy[i]), ("rs", mrs[i])):
+            if v not in workers:
+                continue
+            rep = workers[v].ask({"mod": MOD, "op": "apply", "args": {"base": hx(base), "delta": hx(d)}})
+            r = classify_decode(ctx, stream, v, base, d, rep)
+            res[v] = r
+            ctx.count(stream, (v, base, d), True, (tag + ":" if tag else "") + v + ":" + r[:3])
+            if r != model:
+                ctx.disagree(stream, {"base": hx(base), "delta": hx(d)}, model[:200], r[:200], v)
+        if len(res) == 2 and res["py"] != res["rs"]:
+            ctx.oracle_fail(stream, {"base": hx(base), "delta": hx(d), "py": res["py"][:100], "rs": res["rs"][:100]},
+                            "pure-Python and Rust decoders disagree", "py-rs-decode-divergence")
 
 
 def _stream_exhaustive(ctx, workers):
@@ -521,48 +568,37 @@ def _stream_exhaustive(ctx, workers):
 
 
 def _compare_decoders_batched(ctx, stream, workers, base, deltas):
-    """Like _compare_decoders but the workers get a whole batch per request (no hostile sizes here:
-    with <= 5 bytes over the alphabet the declared dest size is < 2^35 only through 0xff/0x80 runs,
-    so the Rust worker may still abort — fall back to one-by-one on crash)."""
-    lines = [f"c03.apply {hx(base)} {hx(d)}" for d in deltas] + [f"c03.applyrs 1 {hx(base)} {hx(d)}" for d in deltas]
+    """Like _compare_decoders, but each worker gets a whole batch per request; falls back to one-by-one
+    when a batch kills the child."""
+    lines = [f"c03.apply {hx(base)} {hx(d)}" for d in deltas] + [f"c03.applyrs {hx(base)} {hx(d)}" for d in deltas]
     outs = ctx.driver.batch(lines)
-    mpy, mrs = outs[: len(deltas)], outs[len(deltas):]
+    models = {"py": outs[: len(deltas)], "rs": outs[len(deltas):]}
     CH = 2000
     for s in range(0, len(deltas), CH):
         chunk = deltas[s:s + CH]
-        rep = workers["py"].ask({"mod": MOD, "op": "apply_many", "args": {"base": hx(base), "deltas": [hx(d) for d in chunk]}}, timeout=300)
-        if "r" not in rep:
+        got = {}
+        for v in ("py", "rs"):
+            if v not in workers:
+                continue
+            rep = workers[v].ask({"mod": MOD, "op": "apply_many",
+                                  "args": {"base": hx(base), "deltas": [hx(d) for d in chunk]}}, timeout=300)
+            if "r" not in rep:
+                got = None
+                break
+            got[v] = rep["r"]
+        if got is None:
             _compare_decoders(ctx, stream, workers, base, chunk)
             continue
-        for j, r in enumerate(rep["r"]):
-            d = chunk[j]
-            classify_decode(ctx, stream, "py", base, d, {"r": r})
-            ctx.count(stream, ("py", base, d), True, "py:" + r[:3])
-            if r != mpy[s + j]:
-                ctx.disagree(stream, {"base": hx(base), "delta": hx(d)}, mpy[s + j], r, "py")
-        if "rs" not in workers:
-            continue
-        # split by model prediction: deltas predicted to allocate out of proportion or panic go one by one
-        safe, risky = [], []
         for j, d in enumerate(chunk):
-            m = mrs[s + j].split(" ")
-            if m[0] == "panic" or int(m[1]) > proportion_bound(base, d):
-                risky.append(d)
-            else:
-                safe.append((j, d))
-        rep = workers["rs"].ask({"mod": MOD, "op": "apply_many", "args": {"base": hx(base), "deltas": [hx(d) for _, d in safe]}}, timeout=300)
-        if "r" not in rep:
-            _compare_decoders(ctx, stream, {"py": workers["py"], "rs": workers["rs"]}, base, [d for _, d in safe])
-        else:
-            for (j, d), r in zip(safe, rep["r"]):
-                classify_decode(ctx, stream, "rs", base, d, {"r": r})
-                m = mrs[s + j].split(" ")
-                exp = "ok " + m[2] if m[0] == "ok" else "err delta"
-                ctx.count(stream, ("rs", base, d), True, "rs:" + r[:3])
-                if r != exp:
-                    ctx.disagree(stream, {"base": hx(base), "delta": hx(d)}, mrs[s + j], r, "rs")
-        if risky:
-            _compare_decoders(ctx, stream + ".risky", {"py": workers["py"], "rs": workers["rs"]}, base, risky)
+            for v, rs_ in got.items():
+                r = rs_[j]
+                classify_decode(ctx, stream, v, base, d, {"r": r})
+                ctx.count(stream, (v, base, d), True, v + ":" + r[:3])
+                if r != models[v][s + j]:
+                    ctx.disagree(stream, {"base": hx(base), "delta": hx(d)}, models[v][s + j][:200], r[:200], v)
+            if len(got) == 2 and got["py"][j] != got["rs"][j]:
+                ctx.oracle_fail(stream, {"base": hx(base), "delta": hx(d), "py": got["py"][j][:100], "rs": got["rs"][j][:100]},
+                                "pure-Python and Rust decoders disagree", "py-rs-decode-divergence")
 
 
 def _stream_structured(ctx, workers):
@@ -599,6 +635,9 @@ def search(ctx: core.Ctx):
         workers["rs"] = core.Worker("rs", overlay=ov, mem_mb=1024)
     rng = ctx.rng
     try:
+        _stream_copyop_big(ctx, workers, stream="search.copyop.big", scale=5)
+        if ctx.oracle_failures:
+            return
         # 1. neighbourhood of disagreeing (base, target) pairs and a large fresh sample
         pairs = []
         for dgr in ctx.disagreements:
